@@ -368,6 +368,7 @@ def assemble(unit_name, out_path=None):
     lemma_props = []
     lemmas = []
     errors = []
+    failed = []
     for k, s in enumerate(segs):
         if s[0] == "lemma_props":
             lemma_props = s[1]
@@ -384,6 +385,8 @@ def assemble(unit_name, out_path=None):
             r = res[k]
             if not r.get("ok"):
                 errors.append(f"{sp['vx_path']}:{sp['vx_line']}: extract `{sp['file']} :: {sp['sel']}` failed: {r.get('error')}")
+                failed.append({"file": sp["file"], "sel": sp["sel"], "props": sp["props"], "error": r.get("error"),
+                               "fn_name": sp.get("rename") or sp["sel"].split("fn ")[-1].strip()})
                 continue
             idx = len(extracted)
             text = r["text"].rstrip("\n")
@@ -415,7 +418,7 @@ def assemble(unit_name, out_path=None):
     os.makedirs(os.path.dirname(out_path), exist_ok=True)
     with open(out_path, "w") as f:
         f.write("\n".join(out_lines) + "\n")
-    return {"unit": unit_name, "path": out_path, "extracted": extracted, "lemmas": lemmas, "linemap": linemap, "errors": errors}
+    return {"unit": unit_name, "path": out_path, "extracted": extracted, "lemmas": lemmas, "linemap": linemap, "errors": errors, "failed": failed}
 
 
 TRUST_PATTERNS = [
